@@ -643,4 +643,75 @@ theorem aad_injective {x y : Ident} (hx : NulFreeDomain x) (hy : NulFreeDomain y
       obtain ⟨h1, h2⟩ := append_sep_inj (Char.ofNat 0) d d' p p' hx hy h
       rw [h1, h2]
 
+/-! ### capacities never change -/
+
+def World.caps (W : World) : List Nat := W.caches.map (·.cap)
+
+theorem setCache_caps (W : World) (w : Nat) (c : Cache) (h : c.cap = (W.cache w).cap) :
+    (W.setCache w c).caps = W.caps := by
+  unfold World.caps World.setCache
+  simp only [List.map_set]
+  apply List.ext_getElem?
+  intro i
+  rw [List.getElem?_set]
+  split
+  · rename_i hwi
+    subst hwi
+    split
+    · rename_i hlt
+      simp only [List.length_map] at hlt
+      have hc : W.caches[w]? = some W.caches[w] := List.getElem?_eq_getElem hlt
+      simp only [World.cache, hc, Option.getD_some] at h
+      rw [h, List.getElem?_map, hc]; rfl
+    · rename_i hge
+      simp only [List.length_map, Nat.not_lt] at hge
+      rw [List.getElem?_map, List.getElem?_eq_none hge]; rfl
+  · rfl
+
+theorem finish_caps (cfg : Cfg) (W : World) (rq : Req) (c : Cursor) (rc : RC) :
+    (finish cfg W rq c rc).1.caps = W.caps := by
+  unfold finish
+  split
+  · rfl
+  · split <;> rfl
+
+theorem serveCont_caps (cfg : Cfg) (W : World) (w : Nat) (rq : Req) : (serveCont cfg W w rq).1.caps = W.caps := by
+  unfold serveCont
+  cases hopen : openCursor cfg W rq with
+  | error r => rfl
+  | ok c =>
+    have hcap := (get_spec (W.cache w) c.cid (identKey rq.ident) W.now).cap
+    rcases hg : (W.cache w).get c.cid (identKey rq.ident) W.now with ⟨cache1, _ | rc⟩
+    · rw [hg] at hcap
+      simp only [hg]
+      cases hres : resolveCall cfg W rq c.cid with
+      | error r => exact setCache_caps W w cache1 hcap
+      | ok p =>
+        obtain ⟨rc, cr⟩ := p
+        simp only
+        rw [finish_caps]
+        exact setCache_caps W w _ (by rw [(put_spec cache1 _ _ _ _).cap]; exact hcap)
+    · rw [hg] at hcap
+      simp only [hg]
+      split
+      · exact setCache_caps W w cache1 hcap
+      · rw [finish_caps]; exact setCache_caps W w cache1 hcap
+
+theorem step_caps (cfg : Cfg) (W : World) (s : Step) : (step cfg W s).caps = W.caps := by
+  cases s with
+  | tick d => rfl
+  | init w ident m rc =>
+    show (serveInit cfg W w ident m rc).caps = W.caps
+    unfold serveInit
+    exact setCache_caps W w _ (put_spec (W.cache w) _ _ _ _).cap
+  | cont w rq => exact serveCont_caps cfg W w rq
+
+theorem run_caps (cfg : Cfg) (hist : List Step) : ∀ W, (run cfg W hist).caps = W.caps := by
+  induction hist with
+  | nil => exact fun W => rfl
+  | cons s t ih => exact fun W => (ih _).trans (step_caps cfg W s)
+
+theorem start_caps (caps : List Nat) (t0 : Nat) : (World.start caps t0).caps = caps := by
+  simp [World.caps, World.start, Function.comp_def]
+
 end VgiVerif.C14
